@@ -68,7 +68,7 @@ theorem c16_no_failure_runes (chain : List Block) (h : Valid.validChain chain = 
   exact hno (RuneLift.lotSites_eq ▸ hmem)
 
 /-- The sat / address / inscription pass of one block — **any** state, block and configuration, no
-validity hypothesis: never an `err`, and a panic only at one of the 16 sites of
+validity hypothesis: never an `err`, and a panic only at one of the 13 sites of
 `utxoResidualSites`. -/
 theorem c16_utxo_pass_partial (cfg : Cfg) (st : State) (blk : Block) :
     (∀ e, indexUtxoEntries cfg st blk ≠ .err e) ∧
@@ -77,7 +77,7 @@ theorem c16_utxo_pass_partial (cfg : Cfg) (st : State) (blk : Block) :
   ⟨fun _ => w.not_err, fun _ hs => w.panic_mem hs⟩
 
 /-- **Every configuration, `_partial`**: indexing a valid chain never returns an error, and can
-panic only at a failure site of the sat / address / inscription pass (`utxoResidualSites`, 16
+panic only at a failure site of the sat / address / inscription pass (`utxoResidualSites`, 13
 strings, each named with the invariant it needs in `Proofs/IndexMiscNoPanic.lean`).  The rune pass
 of every block of a valid chain is proved to succeed (C08 lift + the stateless rules). -/
 theorem c16_no_failure_partial (chain : List Block) (h : Valid.validChain chain = true) (cfg : Cfg) :
